@@ -143,6 +143,10 @@ func (ir *ifdReader) discard(n int) (err error) {
 		ir.po += uint32(discarded)
 		n -= discarded
 	}
+	if n <= 0 {
+		// the count is satisfied: an error that came with the last bytes (io.EOF) belongs to the next read
+		return nil
+	}
 	return err
 }
 
